@@ -66,7 +66,7 @@ Min(a, b) == IF a < b THEN a ELSE b
 Recent(our, got) == \E i \in 0..(RECENT - 1) : got = (our + SEQMOD - i) % SEQMOD
 Push(ring, x, n) == IF Len(ring) < n THEN Append(ring, x) ELSE Append(Tail(ring), x)
 
-NoQ == [id |-> 0, id2 |-> 0, nm |-> 0, cs |-> 0, kind |-> "none"]
+NoQ == [id |-> 0, id2 |-> 0, nm |-> 0, cs |-> 0, cs2 |-> 0, kind |-> "none"]
 
 -----------------------------------------------------------------------------
 (* ------------------------------- client -------------------------------- *)
@@ -189,7 +189,7 @@ Send(s, w) ==
                 dfrag |-> s2.ofrag % FRAGMOD, last |-> last,
                 units |-> IF has THEN SubSeq(Image(s2.opkt), s2.ooff + 1, s2.ooff + n) ELSE <<>>]
         out1 == Append(s2.outbox, ans)
-        out2 == IF sl.id2 # 0 THEN Append(out1, [ans EXCEPT !.id = sl.id2]) ELSE out1
+        out2 == IF sl.id2 # 0 THEN Append(out1, [ans EXCEPT !.id = sl.id2, !.cs = sl.cs2]) ELSE out1   \* the duplicate's own spelling
         s3 == [s2 EXCEPT !.outbox = out2,
                          !.qmP = IF sl.kind = "ping" THEN Push(@, sl.nm, QMEMP) ELSE @,
                          !.qmD = IF sl.kind = "data" THEN Push(@, sl.nm, QMEMD) ELSE @,
@@ -216,8 +216,9 @@ CachedAns(s, m) == LET i == CHOOSE i \in 1..Len(s.cache) :
 InRing(r, x) == \E i \in 1..Len(r) : r[i] = x
 Illegal(m) == [id |-> m.id, nm |-> m.nm, cs |-> m.cs, kind |-> m.kind, illegal |-> TRUE, ser |-> 0,
                useq |-> 0, ufrag |-> 0, dseq |-> 0, dfrag |-> 0, last |-> FALSE, units |-> <<>>]
-NewQ(m) == [id |-> m.id, id2 |-> 0, nm |-> m.nm, cs |-> m.cs, kind |-> m.kind]
-SameName(sl, m) == sl.id # 0 /\ sl.nm = m.nm /\ sl.cs = m.cs
+NewQ(m) == [id |-> m.id, id2 |-> 0, nm |-> m.nm, cs |-> m.cs, cs2 |-> 0, kind |-> m.kind]
+\* held queries are compared ignoring letter case (strcasecmp), the answer cache by the exact name
+SameName(sl, m) == sl.id # 0 /\ sl.nm = m.nm
 
 \* the duplicate defences common to ping and data, in the order of the code.
 \* Returns [done, s]: done = the query was consumed by a defence
@@ -225,8 +226,8 @@ Defences(s, m) ==
     IF CacheHit(s, m) THEN [done |-> TRUE, s |-> [s EXCEPT !.outbox = Append(@, CachedAns(s, m))]]
     ELSE IF InRing(IF m.kind = "ping" THEN s.qmP ELSE s.qmD, m.nm)
          THEN [done |-> TRUE, s |-> [s EXCEPT !.outbox = Append(@, Illegal(m))]]
-    ELSE IF SameName(s.q, m) /\ LAZY THEN [done |-> TRUE, s |-> [s EXCEPT !.q.id2 = m.id]]
-    ELSE IF SameName(s.qrs, m) THEN [done |-> TRUE, s |-> [s EXCEPT !.qrs.id2 = m.id]]
+    ELSE IF SameName(s.q, m) /\ LAZY THEN [done |-> TRUE, s |-> [s EXCEPT !.q.id2 = m.id, !.q.cs2 = m.cs]]
+    ELSE IF SameName(s.qrs, m) THEN [done |-> TRUE, s |-> [s EXCEPT !.qrs.id2 = m.id, !.qrs.cs2 = m.cs]]
     ELSE [done |-> FALSE, s |-> s]
 
 \* handle_null_request(), 'P' branch
@@ -355,6 +356,13 @@ ACliTimeout ==
     /\ UNCHANGED <<netA, upNext, accS, loss, dup>>
 
 \* --- server actions
+StreamPos(s) == <<s.iseq, s.ifrag, s.ibuf, s.opkt, s.oseq, s.ofrag, s.ooff, s.olen, s.outq>>
+\* the windows of C16: among the last CACHE answered queries, the last QMEMD data / QMEMP ping queries, or held
+RecentlySeen(s, m) ==
+    \/ \E i \in 1..Len(s.cache) : s.cache[i].nm = m.nm
+    \/ InRing(IF m.kind = "ping" THEN s.qmP ELSE s.qmD, m.nm)
+    \/ (s.q.id # 0 /\ s.q.nm = m.nm)
+    \/ (s.qrs.id # 0 /\ s.qrs.nm = m.nm)
 ASrvRecv(m, keep, newid, flip) ==
     /\ m \in netQ
     /\ PROMPT => \A b \in netQ : m.id <= b.id
@@ -363,9 +371,11 @@ ASrvRecv(m, keep, newid, flip) ==
            s1 == IF m1.kind = "ping" THEN SrvPing(s0, m1) ELSE SrvData(s0, m1)
        IN /\ SrvCommit(Sweep(s1))
           /\ rcvd' = rcvd (+) SetToBag({<<m1.id, m1.nm, m1.cs>>})
+          \* C16 ghost: the handler (before the sweep) moved a stream position although the query was one the server
+          \* had recently seen (answered and still remembered, or currently held - letter case and id ignored)
+          /\ lastact' = IF RecentlySeen(s0, m1) /\ StreamPos(s1) # StreamPos(s0) THEN "SrvRecvTwice" ELSE "SrvRecv"
     /\ netQ' = IF keep THEN netQ ELSE netQ \ {m}
     /\ dup' = IF keep THEN dup + 1 ELSE dup
-    /\ lastact' = "SrvRecv"
     /\ UNCHANGED <<dnNext, accC, loss, tos>>
 
 ASrvTun ==
@@ -444,5 +454,5 @@ TypeOK == /\ S.ooff <= S.olen /\ S.osent <= FRAGSIZE
           /\ C.ooff <= C.olen
 
 \* C16: a step that consumes a re-delivered query (already in a defence window) changes no stream position
-StreamPos(s) == <<s.iseq, s.ifrag, s.ibuf, s.opkt, s.oseq, s.ofrag, s.ooff, s.olen, s.outq>>
+NeverTwice == lastact # "SrvRecvTwice"
 =============================================================================
